@@ -38,7 +38,8 @@ def accept_shapes():
         res.append((acc_name(storage, f, plen, tail, nxt), storage, f, plen, tail, nxt, tier, 0))
     # message + `gap` garbage bytes + next marker (gap 1..4): the look-ahead heuristic must not see the NEXT message's marker
     # as "a second marker inside this message" (added after seeded change seeded/C01: loop bound to_consume + 3)
-    quick_gap = {(True, ALL, 2, 1), (False, ALL, 2, 1), (True, 0, 0, 2)}  # (serial, all optional parts, gap 1) added after seeded change C01-6
+    quick_gap = {(False, ALL, 2, 1), (True, 0, 0, 2)}  # storage (True, ALL, 2, 1) moved back to thorough: 630 s on the reference sandbox (quick command limit 900 s)
+    #  # (serial, all optional parts, gap 1) added after seeded change C01-6
     for storage in (True, False):
         for f in (0, ALL):
             for plen in (0, 2):
